@@ -350,10 +350,10 @@ func genBlock(t *rapid.T, maxStr int) []byte {
 			idx := uint64(rapid.SampledFrom([]int{1, 2, 8, 61, 62, 63, 64, 70, 0, 200, 1 << 20}).Draw(t, "idx"))
 			b = appendInt(b, 0x80, 7, idx, 0)
 		case 3: // indexed with redundant / huge varint
-			b = appendInt(b, 0x80, 7, uint64(rapid.SampledFrom([]uint64{62, 127, 128, 1 << 31, 1 << 40, 1<<63 - 1}).Draw(t, "bigidx")), rapid.IntRange(0, 10).Draw(t, "red"))
+			b = appendInt(b, 0x80, 7, uint64(rapid.SampledFrom([]uint64{62, 127, 128, 1 << 31, 1 << 40, 1<<63 - 1, 1 << 63, 1<<63 + 126, 1<<64 - 1}).Draw(t, "bigidx")), rapid.IntRange(0, 10).Draw(t, "red"))
 		case 4, 5, 6: // literal with incremental indexing
 			if rapid.Bool().Draw(t, "idxname") {
-				b = appendInt(b, 0x40, 6, uint64(rapid.SampledFrom([]int{1, 32, 58, 61, 62, 63, 99}).Draw(t, "ni")), 0)
+				b = appendInt(b, 0x40, 6, rapid.SampledFrom([]uint64{1, 32, 58, 61, 62, 63, 99, 1 << 63, 1<<63 + 62}).Draw(t, "ni"), 0)
 			} else {
 				b = append(b, 0x40)
 				b = genString(t, b)
@@ -361,7 +361,7 @@ func genBlock(t *rapid.T, maxStr int) []byte {
 			b = genString(t, b)
 		case 7: // literal without indexing
 			if rapid.Bool().Draw(t, "idxname") {
-				b = appendInt(b, 0x00, 4, uint64(rapid.SampledFrom([]int{1, 15, 16, 61, 62, 70}).Draw(t, "ni")), 0)
+				b = appendInt(b, 0x00, 4, rapid.SampledFrom([]uint64{1, 15, 16, 61, 62, 70, 1 << 63, 1<<63 + 14}).Draw(t, "ni"), 0)
 			} else {
 				b = append(b, 0x00)
 				b = genString(t, b)
@@ -369,7 +369,7 @@ func genBlock(t *rapid.T, maxStr int) []byte {
 			b = genString(t, b)
 		case 8: // never indexed
 			if rapid.Bool().Draw(t, "idxname") {
-				b = appendInt(b, 0x10, 4, uint64(rapid.SampledFrom([]int{1, 15, 16, 61, 62}).Draw(t, "ni")), 0)
+				b = appendInt(b, 0x10, 4, rapid.SampledFrom([]uint64{1, 15, 16, 61, 62, 1 << 63, 1<<64 - 1}).Draw(t, "ni"), 0)
 			} else {
 				b = append(b, 0x10)
 				b = genString(t, b)
